@@ -6,9 +6,13 @@
                           bch_terms outside [0, 5] must be rejected)
 * gen_logv_expv_* / gen_logv_compose_*
                           which align_corners flag reaches Grid.coords / F.grid_sample (and the padding) in the expv step
-                          and in the compose_flows step of logv, as functions of the caller's align_corners."""
+                          and in the compose_flows step of logv, as functions of the caller's align_corners.
+* gen_lie_opts_first_arg / gen_lie_opts_second_arg
+                          which of (mode, sigma, spacing, stride) lie_bracket forwards to flow_derivatives (through
+                          jacobian_dict) for each of its two Jacobians (flow_derivatives replaced by a recorder; any other
+                          value than the caller's or None, another derivative order or other keys abort the translation)."""
 from tr_units.bspline import simple_float_literals
-from tr_units.flowalg import bch_section, logv_section, emit_flags
+from tr_units.flowalg import bch_section, logv_section, lie_opts_section, emit_flags
 
 
 def generate(loader):
@@ -18,9 +22,11 @@ def generate(loader):
     with simple_float_literals():
         bch = bch_section(flow_mod)
         lflags = logv_section((flow_mod, img, grid_mod))
+        lie = lie_opts_section(flow_mod)
     out = ["From DV Require Import Model.Sampler Model.BCH.", "",
            "(* compose_svfs(u, v, bch_terms): linear combination of u, v and nested brackets (lie_bracket opaque) *)", bch,
            "(* logv(flow, align_corners = ac): flags reaching Grid.coords / F.grid_sample in its expv step and in its compose_flows step *)"]
     out += emit_flags("gen_logv_expv", lflags["expv"])
     out += emit_flags("gen_logv_compose", lflags["compose"])
+    out.append(lie)
     return "\n".join(out) + "\n"
